@@ -66,6 +66,11 @@ impl Field for Ed448ScalarField {
     }
 
     fn deserialize(buf: &Self::Serialization) -> Result<Self::Scalar, FieldError> {
+        // The scalar occupies 56 bytes; the 57th byte of the RFC 8032 encoding
+        // must be zero, otherwise the encoding is not canonical.
+        if buf[56] != 0 {
+            return Err(FieldError::MalformedScalar);
+        }
         match EdwardsScalar::from_canonical_bytes(buf.into()).into() {
             Some(s) => Ok(s),
             None => Err(FieldError::MalformedScalar),
